@@ -10,6 +10,10 @@
     Set.load(obj, items) inside add / remove   -> arrives as preceding `seen` / `loadAll` operations (observed on the real code)
     Set.load(obj) (copy, len, iteration)       -> `loadAll`
     SetInstance.count                          -> `count`  (cached `setdata.count`, else database count + len(added) − len(removed))
+    SetInstance.__contains__ (many-to-many)    -> `contains`  (item in setdata → True; fully loaded → False; the negative cache
+                                                  `setdata.absent` → False; else Set.load(obj, {item}) and, when the item is not
+                                                  linked, `absent.add(item)`), `containsRev` (no SetData yet, the other side is
+                                                  fully loaded and answers)
     SessionCache.flush / _calc_modified_m2m    -> `flush`  (the pending changes reach the database; `added = removed = None`)
   `None` and the empty set are not distinguished for `added` / `removed`: the code only ever truth-tests them.
 
@@ -38,9 +42,10 @@ structure SetData where
   count : Option Int
   added : List Item
   removed : List Item
+  absent : List Item := []       -- the negative cache of `__contains__`: items a membership test did not find
 deriving Repr, DecidableEq
 
-def SetData.new : SetData := ⟨[], false, none, [], []⟩
+def SetData.new : SetData := ⟨[], false, none, [], [], []⟩
 
 structure Coll where
   sd : SetData              -- `obj._vals_.get(attr)` (`None` = a fresh SetData: every reader creates it on demand)
@@ -56,6 +61,8 @@ inductive Op where
   | loadAll
   | count
   | flush
+  | contains (x : Item)     -- `item in obj.coll` on a many-to-many collection
+  | containsRev (x : Item)  -- the same, answered by the fully loaded collection of the item (obj has no SetData yet)
 deriving Repr, DecidableEq
 
 inductive Err where
@@ -101,7 +108,24 @@ def loadAll (c : Coll) : SetData :=
   if c.sd.fully then c.sd
   else
     let items := c.sd.items ++ c.db.filter fun y => decide (y ∉ c.sd.items) && decide (y ∉ c.sd.removed)
-    { c.sd with items := items, fully := true, count := some items.length }
+    { c.sd with items := items, fully := true, count := some items.length, absent := [] }
+
+def b2i (b : Bool) : Int := if b then 1 else 0
+
+/-- `SetInstance.__contains__` for a many-to-many collection that has a SetData: the new SetData and the answer.
+    `Set.load(obj, {x})` is inside: nothing is asked for an item the session removed; a single-item query when the SetData is
+    empty, else the whole collection is loaded (`if items and (attr.lazy or not setdata)`). -/
+def containsSd (c : Coll) (x : Item) : SetData × Bool :=
+  let sd := c.sd
+  if x ∈ sd.items then (sd, true)
+  else if sd.fully then (sd, false)
+  else if x ∈ sd.absent then (sd, false)
+  else
+    let sd1 : SetData :=
+      if x ∈ sd.removed then sd
+      else if sd.items.isEmpty then (if x ∈ c.db then { sd with items := [x] } else sd)
+      else loadAll c
+    if x ∈ sd1.items then (sd1, true) else ({ sd1 with absent := ins x sd1.absent }, false)
 
 /-- one call; the `Option Int` is the value a read returns.  Loads done by `add` / `remove` (`Set.load(obj, items)`)
     arrive as preceding `seen` / `loadAll` operations. -/
@@ -138,9 +162,17 @@ def step (cfg : Cfg) (c : Coll) : Op → Except Err (Coll × Option Int)
   | .flush =>
     let db' := (c.db.filter fun y => decide (y ∉ c.sd.removed)) ++ c.sd.added
     let reset := !cfg.m2m || cfg.owning || cfg.fixFlush
-    .ok ({ sd := if reset then { c.sd with added := [], removed := [] } else c.sd, db := db' }, none)
+    .ok ({ sd := if reset then { c.sd with added := [], removed := [], absent := [] } else c.sd, db := db' }, none)
+  | .contains x => .ok ({ c with sd := (containsSd c x).1 }, some (b2i (containsSd c x).2))
+  | .containsRev x =>
+    .ok (c, some (b2i ((decide (x ∈ c.db) && !decide (x ∈ c.sd.removed)) || decide (x ∈ c.sd.added))))
 
 /-! ### the reference: what the program has in the collection -/
+
+/-- what a read must return, given what the program has -/
+def specRead (l : List Item) : Op → Int
+  | .contains x | .containsRev x => b2i (decide (x ∈ l))
+  | _ => l.length
 
 def specStep (l : List Item) : Op → List Item
   | .revAdd x | .add x => ins x l
@@ -169,7 +201,8 @@ instance (cfg : Cfg) (op : Op) : Decidable (OpSafe cfg op) := by
 instance (c : Coll) (l : List Item) (op : Op) : Decidable (OpValid c l op) := by
   cases op <;> simp only [OpValid] <;> infer_instance
 
-/-- a history on both machines; `reads` collects (returned value, number of items the program has) of every read -/
+/-- a history on both machines; `reads` collects (returned value, what the program's state says) of every read:
+    count() and len() against the number of items, membership tests (1 / 0) against membership -/
 def run (cfg : Cfg) : Coll → List Item → List Op → Except Err (Coll × List Item × List (Int × Int))
   | c, l, [] => .ok (c, l, [])
   | c, l, op :: ops =>
@@ -179,7 +212,7 @@ def run (cfg : Cfg) : Coll → List Item → List Op → Except Err (Coll × Lis
       let l' := specStep l op
       match run cfg c' l' ops with
       | .error e => .error e
-      | .ok (c'', l'', rs) => .ok (c'', l'', (match r with | some v => [(v, (l'.length : Int))] | none => []) ++ rs)
+      | .ok (c'', l'', rs) => .ok (c'', l'', (match r with | some v => [(v, specRead l' op)] | none => []) ++ rs)
 
 /-- every call of the history is made in a state where its caller's guarantees hold -/
 def ValidFrom (cfg : Cfg) : Coll → List Item → List Op → Prop
